@@ -95,6 +95,27 @@ func (r *hnswLat) search(q int) {
 	r.t.ev("search", E{"q": q, "res": res, "ok": err == nil, "live": live, "exact": live, "resident": len(nodes), "m": r.m})
 }
 
+// searchLowEf: a search with the smallest efSearch (M): only the non-emptiness clause applies (the model's regime is ef >= n)
+func (r *hnswLat) searchLowEf(q int) {
+	rs, err := r.idx.NewSearch().WithQuery([]float32{hnswPos[q-1]}).WithK(0).WithEfSearch(r.m).Execute()
+	res := []uint32{}
+	for _, x := range rs {
+		res = append(res, x.GetId())
+	}
+	_, nodes, _, dead := exportGraph(r.idx)
+	isDead := map[uint32]bool{}
+	for _, d := range dead {
+		isDead[d] = true
+	}
+	live := []uint32{}
+	for _, n := range nodes {
+		if !isDead[n.ID] {
+			live = append(live, n.ID)
+		}
+	}
+	r.t.ev("search.lowef", E{"q": q, "res": res, "ok": err == nil, "live": live, "resident": len(nodes), "m": r.m, "ef": r.m})
+}
+
 // ---- audit mode
 
 func (e *vecEnv) refD(a, b []float32) float64 { return refMetric(e.metric, f64(a), f64(b)) }
@@ -167,6 +188,12 @@ func auditGraph(t *traceWriter, idx *comet.HNSWIndex, env *vecEnv, vecs map[uint
 		rs, err := idx.NewSearch().WithQuery(q).WithK(5).Execute()
 		if err != nil || len(rs) == 0 {
 			empty++
+		}
+		if p%3 == 0 { // the smallest ef the property quantifies over
+			lr, lerr := idx.NewSearch().WithQuery(q).WithK(5).WithEfSearch(m).Execute()
+			if live > 0 && (lerr != nil || len(lr) == 0) {
+				empty++
+			}
 		}
 		if len(nodes) <= 2*m && live > 0 {
 			// exact top-5 by the reference evaluator
@@ -296,7 +323,30 @@ func drvHNSW(args []string) error {
 				tomb = map[int]bool{}
 			default:
 				lat.search(id)
+				if rng.Intn(2) == 0 {
+					lat.searchLowEf(id)
+				}
 			}
+		}
+		// "bridge" shape: fill the graph beyond 2M, remove a few vertices WITHOUT flushing, insert the rest (their links must keep
+		// running through the tombstoned vertices), then search from both ends
+		if h%2 == 1 {
+			lat.reset()
+			perm := rng.Perm(len(hnswPos))
+			nFill := 5 + rng.Intn(3)
+			for _, i := range perm[:nFill] {
+				lat.add(i+1, []int{0, 0, 0, 1, 1, 2}[rng.Intn(6)])
+			}
+			for k := 0; k < 2+rng.Intn(2); k++ {
+				lat.remove(perm[rng.Intn(nFill)] + 1)
+			}
+			for _, i := range perm[nFill:] {
+				lat.add(i+1, []int{0, 0, 1}[rng.Intn(3)])
+				lat.search(1 + rng.Intn(len(hnswPos)))
+			}
+			lat.search(1)
+			lat.search(len(hnswPos))
+			lat.searchLowEf(1 + rng.Intn(len(hnswPos)))
 		}
 	}
 	comet.VerifLevelFunc = nil
